@@ -103,6 +103,44 @@ def run(ctx):
             ctx.violation(f"definition_location / all_references disagree with scope resolution at occurrence(s) {bad}",
                           {"protocol": "q", "module": t, "impl": a, "model": m, "first_differences": bad})
             break
+    # the deterministic family corpus/C15/forms.sam must keep a variable use in every child position
+    # of every expression form (a new `E::` variant is a compile error in scopedump.rs)
+    EXPECT = {"Binary.e1", "Binary.e2", "Block.final", "Block.let-value", "Block.statement", "Call.argument", "Call.callee",
+              "FieldAccess.object", "IfElse.condition", "IfElse.else", "IfElse.guard-matched", "IfElse.then", "Lambda.body",
+              "Match.case-body", "Match.matched", "Tuple.element", "Unary.argument"}
+    fpath = os.path.join(cdir, "forms.sam")
+    if os.path.exists(fpath):
+        got = set(run_impl(["vp " + hexs(open(fpath).read())], PROP)[0].split(" "))
+        hist["forms_family_positions"] = len(got & EXPECT)
+        if EXPECT - got:
+            ctx.violation("corpus/C15/forms.sam no longer places a variable use in: " + ", ".join(sorted(EXPECT - got)),
+                          {"broken": "deterministic family coverage", "missing": sorted(EXPECT - got)}, no_input=True)
+    # ---- tie 2b (fixed part, independent of the generator): every local occurrence of every
+    # tests/*.sam file of the repository, checked as one project (the files import each other)
+    repo_mods = {"tests." + os.path.basename(f)[:-4]: open(f).read()
+                 for f in sorted(glob.glob(os.path.join(common.REPO, "tests", "*.sam")))}
+    nrepo_occ, nrepo_mods = 0, 0
+    if repo_mods:
+        ans = run_impl(["qmulti " + hexs(json.dumps(repo_mods))], PROP)[0]
+        parts = [x.split(" :: ", 1) for x in ans.split(" ||| ")] if " :: " in ans else []
+        if not parts:
+            ctx.violation("query sweep over the repository's tests/*.sam crashed: " + ans[:160], {"protocol": "qmulti", "impl": ans[:2000]})
+        good = [(n, r) for n, r in parts if "=> " in r]
+        model = run_model(["q " + r.split("=> ")[0] for _, r in good], PROP) if good else []
+        for (n, r), m in zip(good, model):
+            a = r.split("=> ", 1)[1]
+            nrepo_mods += 1
+            nrepo_occ += len(a.split(",")) if a else 0
+            if a != m and not ctx.violations:
+                bad = [(x, y) for x, y in zip(a.split(","), m.split(",")) if x != y][:3]
+                ctx.violation(f"definition_location / all_references disagree with scope resolution in the repository's own {n.replace('.', '/')}.sam at occurrence(s) {bad}",
+                              {"protocol": "qmulti", "module_name": n, "module": repo_mods[n], "impl": a, "model": m, "first_differences": bad})
+        for n, r in parts:
+            if r.startswith("locinv") and not ctx.violations:
+                ctx.violation("the parser builds an `E::LocalId` whose location differs from its identifier's location in " + n + ": " + r[7:160],
+                              {"protocol": "qmulti", "module_name": n, "module": repo_mods[n], "impl": r})
+        hist["q_repo_rejected_or_syntax"] = sum(1 for _, r in parts if "=> " not in r)
+    hist["q_repo_modules"] = nrepo_mods; hist["q_repo_occurrences"] = nrepo_occ
     for t, a in q_other:
         if a.startswith("panic") or a.startswith("<"):
             ctx.violation("query crashed: " + a[:120], {"protocol": "q", "module": t, "impl": a}); break
@@ -165,7 +203,7 @@ def run(ctx):
             forms[f] = forms.get(f, 0) + 1
     hist["binding_forms"] = forms
     ctx.cov.update({
-        "evaluations": len(ssa_res) + nocc + nren + beh["compared"],
+        "evaluations": len(ssa_res) + nocc + nrepo_occ + nren + beh["compared"],
         "distinct_nontrivial": len(set(t for t, a, _ in q_res if re.search(r":\d+:\d+\+\d+", a))),
         "rule": "accepted generated programs (parameters, let, tuple / struct (shorthand and `as`) / variant patterns at every nesting, or-patterns over variants, struct patterns, tuples and nested or-patterns (first and later alternative), if-let, lambda parameters, captures in nested lambdas) x every local identifier occurrence as query / rename position; non-trivial = distinct module with at least one binding that has a use",
         "samples": samples, "traces_validated_against_impl": len(ssa_res) + len(q_res), "histograms": hist, "part_b_printer_roundtrip": partb,
